@@ -597,6 +597,11 @@ def r08_21(run, model):
 
 
 def run(run, model):
+    # the renamer that respells locals for Go visits every operand: an operand it leaves alone (the closure of `go worker`) keeps the internal
+    # spelling while its declaration is renamed (shared with C01 R01.3, restricted to the ANF renamer)
+    from rules import c01 as _c01r
+    from lib import passes as _P
+    run.try_rule(_c01r.r01_3, model, _P.discover(model), (r"::rename_",))
     run.try_rule(r08_10, model)
     run.try_rule(r08_12, model)
     run.try_rule(r08_13, model)
